@@ -430,6 +430,14 @@ func (j *transJudge) judge(fi int, x ref.Bits) {
 		j.sh.Cell("res/" + fn.name + "/one-ulp-side-decided-analytically")
 		return
 	}
+	if fn.kind == 2 {
+		// which entry of the library's leading-two-digit ln table this argument selects
+		ds := xn.Coef.String()
+		if len(ds) == 1 {
+			ds += "0"
+		}
+		j.sh.Cell("lnslot/" + ds[:2])
+	}
 	ef, _ := err.Float64()
 	b := int(ef * 10)
 	if b > 10 {
@@ -727,6 +735,7 @@ func runC16(c *Ctx) {
 	c.Col.Res.Targets = append(c.Col.Res.Targets,
 		mon.Target{Prefix: "err/", Total: 88, Min: 40},
 		mon.Target{Prefix: "res/", Total: 40, Min: 20},
+		mon.Target{Prefix: "lnslot/", Total: 90, Min: 90},
 	)
 }
 
